@@ -16,6 +16,8 @@ ASSUMPTIONS = [
     "the engine state handed to the backtests already carries the exchange's initial balances (as in the repo's example config), so the initial account snapshot is idempotent",
     "the engine is an arbitrary deterministic function of its state and event (strategy, risk manager, recorders included); a strategy with interior randomness or wall-clock reads is outside the model",
     "N concurrent backtests share nothing mutable (Arc'd dataset / configuration are read-only, no global state): assumed by the model, probed only by the correspondence run",
+    "`isolation` (with isolation_summary / isolation_others_irrelevant) holds BY CONSTRUCTION of the product system (review C20-1): the model of N concurrent backtests is a list of N machines in which a global action steps exactly one component, so the theorem is a list-update lemma (List.modify at index i commutes with projection to i); it states what sharing nothing implies and is not evidence that the Rust program shares nothing - that is the previous assumption",
+    "a backtest whose engine STOPS ON A FATAL ERROR is outside the model's isolation statement (review C20-2): in the code System::shutdown_after_backtest then panics (`expect(\"Engine cannot drop Feed receiver\")`: the engine task has dropped the feed receiver), the panic unwinds through try_join_all and takes the whole run_backtests batch - every other, healthy backtest included - with it; the model lets such a backtest end on its own (consumes_all only says its processed events are a prefix) (not in the model; recorded in DESIGN 13.6 from a racy probe, not in the corpus)",
     "tokio task scheduling, thread interleavings and the unbounded channels' FIFO order are represented by an arbitrary action list; fairness (every backtest eventually finishes) is not proved",
 ]
 SOURCE_FILES = ["barter/src/backtest/mod.rs", "barter/src/backtest/market_data.rs", "barter/src/system/mod.rs",
@@ -38,7 +40,10 @@ LEVEL_TEXT = ("Proof (partial by nature). Lean theorems (lean/BarterModel/Props/
               "correspondence run (1/2/8/32 backtests on 0/1/4/8 workers vs each alone) probes.")
 LEVEL_NOTE = ("Trusted: Lean kernel; axioms propext/Classical.choice/Quot.sound only; the hand-written model (execution manager + mock exchange + response sleeps merged into one step whose outputs may be "
               "delivered in any order); harness (recording GlobalData/InstrumentDataState, plan strategy writing to a per-backtest sink, synchronous replay of the observed feed through a fresh real Engine for `own`), "
-              "driver, orchestrator. Observations that depend on the tokio schedule are compared as the model's set of possible values ({0|1}); the spec demands 1. Fairness/termination not proved.")
+              "driver, orchestrator. Observations that depend on the tokio schedule are compared as the model's set of possible values ({0|1}); the spec demands 1. Fairness/termination not proved. "
+              "Honesty notes (independent review C20-1/2): `isolation` is true by construction of the product system (a list-update lemma over N machines that share nothing), so its content is the "
+              "assumption that the Rust backtests share nothing mutable, which only the correspondence run probes; and a backtest whose engine stops on a fatal error makes shutdown_after_backtest panic "
+              "(`Engine cannot drop Feed receiver`), which unwinds try_join_all and aborts the whole run_backtests batch - isolation is broken in the code there, not in the model (not in the corpus either).")
 
 
 def _strategy_class(ops, k, impl_line):
